@@ -153,6 +153,20 @@ add(
     "3/C04",
 )
 
+add(
+    "C05",
+    "(a) The Python source of the Gaussian-IRF kernels, run through the real decay_matrix_implementation_index_independent "
+    "on symbolic rates, times, centres, widths, scales: every entry is proved equal, on both numerical branches, to the "
+    "documented closed form in physical parameters, with multi-Gaussian broadcasting, scales and normalisation; "
+    "(b) relational: slice i of the real index-dependent implementation (shift, centre/width dispersion, wavelength or "
+    "wavenumber variable) equals the index-independent kernel evaluated with that index's effective centre and width "
+    "built from the inputs - for all shifts, coefficients and axis values.",
+    COMMON_NOTE + "exp/erf/erfcx uninterpreted with the identities erfcx(x)=exp(x^2)(1-erf x), erf odd, exp(a)exp(b)=exp(a+b) "
+    "applied as rewrite rules; sqrt(2) a symbol with s^2=2. That the closed form is the convolution integral, and all "
+    "floating point behaviour (switch-over accuracy, overflow), are outside the claim.",
+    "3/C05",
+)
+
 ALL = [f"C{i:02d}" for i in range(1, 21)]
 
 
